@@ -168,6 +168,30 @@ fn owned_ops(tc: &mut Tc<'_>, key: &mut Option<ThreadKey>, n: usize, variant: u3
 			for m in ms {
 				ps.push(op!("Poisonable::new", Poisonable::new(m)));
 			}
+			// a poisoned wrapper stays poisoned whatever `&mut` views are taken of it
+			if let Some(pos) = (0..n).find(|k| (variant >> k) & 1 == 0 && !(leaked && Some(*k) == (0..n).find(|q| (variant >> q) & 1 == 0))) {
+				if let Some(mut k) = key.take() {
+					w.begin_call(0, Class::Harness, "poison_it", false);
+					let r = guarded(|| {
+						ps[pos].scoped_lock(&mut k, |_| std::panic::resume_unwind(Box::new(InjectedPanic(0))));
+					});
+					w.end_call(0);
+					let _ = r;
+					*key = Some(k);
+					let before = ps[pos].is_poisoned();
+					let first = op!("Poisonable::get_mut (poisoned)", ps[pos].get_mut().is_err());
+					let second = op!("Poisonable::child_mut (poisoned)", ps[pos].child_mut().is_err());
+					let third = op!("Poisonable::get_mut (poisoned, again)", ps[pos].get_mut().is_err());
+					if before && !(first && second && third && ps[pos].is_poisoned()) {
+						tc.v(
+							"C10",
+							"poison_lost_without_clear",
+							format!("route=get_mut|a poisoned Poisonable answered get_mut/child_mut/get_mut with Err={first}/{second}/{third} and is_poisoned()={} afterwards although clear_poison was never called", ps[pos].is_poisoned()),
+						);
+					}
+					op!("Poisonable::clear_poison", ps[pos].clear_poison());
+				}
+			}
 			for p in ps.iter_mut() {
 				let _ = op!("Poisonable::debug", format!("{:?}", p));
 				let _ = op!("Poisonable::is_poisoned", p.is_poisoned());
@@ -395,6 +419,22 @@ pub fn run(cfg: &RunCfg) -> Report {
 										|| guarded(|| lk.debug_to(&mut String::new())).is_ok(),
 									);
 									PAYLOAD_DEBUG.with(|m| m.set(0));
+								}
+								// ... and still be usable: with nothing held a try on it succeeds
+								if asg.iter().all(|h| *h == Hold::Free) {
+									if let Some(k) = tc.key.take().or_else(ThreadKey::get) {
+										w.begin_call(0, Class::Harness, "usable_probe", false);
+										match guarded(|| lk.try_lock(k, Mode::Excl)) {
+											Ok(TryOut::Ok(g)) => drop(g),
+											Ok(TryOut::WouldBlock(k)) => {
+												drop(k);
+												tc.v("C17", "lock_unusable_after_nonacquiring_call", format!("{}: nothing is held, yet try_lock is refused after the target was formatted (with failing sinks / payload Debug)", target_desc(target)));
+											}
+											Err(_) => tc.v("C17", "lock_unusable_after_nonacquiring_call", format!("{}: try_lock panics after the target was formatted (with failing sinks / payload Debug)", target_desc(target))),
+										}
+										w.end_call(0);
+										tc.key = ThreadKey::get();
+									}
 								}
 							}
 						});
